@@ -1,6 +1,9 @@
 (* C13 - property theorems only; proofs live in Routing/RoutingProofs.v and
    Routing/ClientFull.v.  FULL-STRENGTH FORM (client mirrors the server). *)
 From VT Require Import Routing.GenTrigger Routing.RoutingProofs Routing.ClientFull Check.C13Check.
+From VT Require Import Routing.History Routing.HistoryProofs Check.C13HistCheck.
+From VT Require Import Routing.NsDispatch Routing.NsDispatchProofs Routing.HistoryGen.
+From VT Require Import Routing.Gen_namespace Routing.Gen_async_namespace.
 Open Scope N_scope.
 
 Theorem C13_server_event_resolution : forall r n ev ns args,
@@ -73,3 +76,61 @@ Print Assumptions C13_client_server_same_rules.
 Theorem C13_checker_sound : forall c, chk_C13 c = true -> P_C13 c.
 Proof. exact chk_C13_sound. Qed.
 Print Assumptions C13_checker_sound.
+
+(* ---- histories: sequences of registrations and events, namespace OBJECTS identified ---- *)
+Theorem C13_server_history_routing : forall ot ops,
+  hrun ot (model_route server_trigger ot) [] ops = hrun ot (spec_route server_reserved ot) [] ops.
+Proof. exact server_history_routing. Qed.
+Print Assumptions C13_server_history_routing.
+
+Theorem C13_client_history_routing : forall ot ops,
+  hrun ot (model_route client_trigger ot) [] ops = hrun ot (spec_route client_reserved ot) [] ops.
+Proof. exact client_history_routing. Qed.
+Print Assumptions C13_client_history_routing.
+
+Theorem C13_event_after_history : forall ot ops i ev ns args,
+  let st := snd (hrun ot (model_route server_trigger ot) [] (filter is_registration ops)) in
+  last (fst (hrun ot (model_route server_trigger ot) [] (ops ++ [HEvent i ev ns args]))) None
+  = Some (Ok (kcalls_of_outcome ot (resolve_namespace_key (snd (get_host st i)) ns)
+                (resolve server_reserved (fst (get_host st i)) (snd (get_host st i)) ev ns args))).
+Proof. exact server_event_after_history. Qed.
+Print Assumptions C13_event_after_history.
+
+(* ---- the generated trigger_event of the namespace base classes: the method called is the
+   bound method on_<event> of THE object that received the event, whatever the application
+   code does ---- *)
+Theorem C13_namespace_dispatch : forall call isc c ns ms ev args,
+  Namespace_trigger_event call isc (mk_nsobj c ns ms) (PStr ev) (PTuple args) = dispatch_spec call c ms ev args.
+Proof. exact namespace_dispatch_generated. Qed.
+Print Assumptions C13_namespace_dispatch.
+
+Theorem C13_client_namespace_dispatch : forall call isc c ns ms ev args,
+  ClientNamespace_trigger_event call isc (mk_nsobj c ns ms) (PStr ev) (PTuple args) = dispatch_spec call c ms ev args.
+Proof. exact client_namespace_dispatch_generated. Qed.
+Print Assumptions C13_client_namespace_dispatch.
+
+Theorem C13_async_namespace_dispatch : forall call isc c ns ms ev args,
+  AsyncNamespace_trigger_event call isc (mk_nsobj c ns ms) (PStr ev) (PTuple args)
+  = dispatch_spec_async call isc c ms ev args.
+Proof. exact async_namespace_dispatch_generated. Qed.
+Print Assumptions C13_async_namespace_dispatch.
+
+Theorem C13_async_client_namespace_dispatch : forall call isc c ns ms ev args,
+  AsyncClientNamespace_trigger_event call isc (mk_nsobj c ns ms) (PStr ev) (PTuple args)
+  = dispatch_spec_async call isc c ms ev args.
+Proof. exact async_client_namespace_dispatch_generated. Qed.
+Print Assumptions C13_async_client_namespace_dispatch.
+
+Theorem C13_server_history_routing_generated_dispatch : forall k ot ops,
+  hrun ot (model_route_gen k server_trigger ot) [] ops = hrun ot (spec_route server_reserved ot) [] ops.
+Proof. exact server_history_routing_gen. Qed.
+Print Assumptions C13_server_history_routing_generated_dispatch.
+
+Theorem C13_client_history_routing_generated_dispatch : forall k ot ops,
+  hrun ot (model_route_gen k client_trigger ot) [] ops = hrun ot (spec_route client_reserved ot) [] ops.
+Proof. exact client_history_routing_gen. Qed.
+Print Assumptions C13_client_history_routing_generated_dispatch.
+
+Theorem C13_history_checker_sound : forall c, chk_C13_hist c = true -> P_C13_hist c.
+Proof. exact chk_C13_hist_sound. Qed.
+Print Assumptions C13_history_checker_sound.
